@@ -513,3 +513,256 @@ pub fn arith(case: &JsonValue) -> JsonValue {
     };
     o
 }
+
+// ================================================================ failure paths (mode histf)
+// A RatesCache and an HttpRequester of our own whose n-th read / write /
+// request (counted per run) fails as scripted; everything else goes to the
+// real cache (in-memory or CSV) and to the serving requester above.
+#[derive(Clone)]
+enum RdEv {
+    Clean,
+    Err,
+    Missing,
+    Keep(Vec<bool>), // true: the row at that position is dropped
+}
+
+struct ScriptedCache {
+    inner: Box<dyn RatesCache>,
+    rd: Vec<RdEv>,
+    wr: Vec<bool>,
+    nrd: Rc<RefCell<usize>>,
+    nwr: Rc<RefCell<usize>>,
+}
+
+impl RatesCache for ScriptedCache {
+    fn write_rates(&mut self, year: u32, rates: &Vec<DailyRate>) -> Result<(), SError> {
+        let n = *self.nwr.borrow();
+        *self.nwr.borrow_mut() = n + 1;
+        if self.wr.get(n).copied().unwrap_or(false) {
+            return Err("harness: scripted cache write failure".to_string());
+        }
+        self.inner.write_rates(year, rates)
+    }
+
+    fn get_usd_cad_rates(&mut self, year: u32) -> Result<Option<Vec<DailyRate>>, SError> {
+        let n = *self.nrd.borrow();
+        *self.nrd.borrow_mut() = n + 1;
+        match self.rd.get(n).cloned().unwrap_or(RdEv::Clean) {
+            RdEv::Clean => self.inner.get_usd_cad_rates(year),
+            RdEv::Err => Err("harness: scripted cache read failure".to_string()),
+            RdEv::Missing => Ok(None),
+            RdEv::Keep(mask) => Ok(self.inner.get_usd_cad_rates(year)?.map(|rows| {
+                rows.into_iter()
+                    .enumerate()
+                    .filter(|(i, _)| !mask.get(*i).copied().unwrap_or(false))
+                    .map(|(_, r)| r)
+                    .collect()
+            })),
+        }
+    }
+}
+
+struct ScriptedRequester {
+    inner: ServingRequester,
+    rq: Vec<i64>, // 0 ok, 1 requester error, 2 a body that is no rates document
+    n: RefCell<usize>,
+}
+
+const BAD_BODIES: [&str; 4] =
+    ["<html>service unavailable</html>", "[{\"observations\":[]}]", "{\"XXXX_observations\":[]}", "{\"observations\":[}"];
+
+#[async_trait::async_trait(?Send)]
+impl HttpRequester for ScriptedRequester {
+    async fn get(&self, url: &str) -> Result<String, SError> {
+        let n = *self.n.borrow();
+        *self.n.borrow_mut() = n + 1;
+        let ev = self.rq.get(n).copied().unwrap_or(0);
+        if ev == 0 {
+            return self.inner.get(url).await;
+        }
+        let (series, start, _) = match parse_url(url) {
+            Some(x) => x,
+            None => return self.inner.get(url).await,
+        };
+        let year = date_of(start).year() as i64;
+        self.inner.log.borrow_mut().push((year, format!("{}!{}", series, if ev == 1 { "http" } else { "doc" })));
+        if ev == 1 {
+            Err("harness: scripted request failure".to_string())
+        } else {
+            Ok(BAD_BODIES[n % BAD_BODIES.len()].to_string())
+        }
+    }
+}
+
+fn rd_script(v: &JsonValue) -> Vec<RdEv> {
+    v.members()
+        .map(|e| {
+            if e.is_array() {
+                RdEv::Keep(e.members().map(|b| b.as_i64().unwrap_or(0) != 0).collect())
+            } else {
+                match e.as_i64().unwrap_or(0) {
+                    1 => RdEv::Err,
+                    2 => RdEv::Missing,
+                    _ => RdEv::Clean,
+                }
+            }
+        })
+        .collect()
+}
+
+/// the cache file of a year with some of its lines replaced: [[line index, "text"], ..]
+fn damage_file(dir: &Path, year: i64, edits: &JsonValue) -> JsonValue {
+    let path = dir.join(format!("rates-{}.csv", year));
+    let bytes = match std::fs::read(&path) {
+        Ok(b) => b,
+        Err(_) => return JsonValue::Null,
+    };
+    let text = String::from_utf8_lossy(&bytes).to_string();
+    let mut lines: Vec<String> = text.split('\n').map(|s| s.to_string()).collect();
+    if lines.last().map(|s| s.is_empty()).unwrap_or(false) {
+        lines.pop();
+    }
+    for e in edits.members() {
+        let i = e[0].as_usize().unwrap();
+        if i < lines.len() {
+            lines[i] = e[1].as_str().unwrap().to_string();
+        }
+    }
+    let mut out = lines.join("\n");
+    out.push('\n');
+    std::fs::write(&path, out.as_bytes()).unwrap();
+    let mut o = JsonValue::new_object();
+    o["bytes"] = JsonValue::Array(out.as_bytes().iter().map(|b| (*b).into()).collect());
+    o["rows"] = read_year(dir, year as u32);
+    o
+}
+
+/// as `hist`, each run with "rd": [0|1|2|[mask]..], "wr": [0|1..], "rq": [0|1|2..] and (CSV cache)
+/// "damage": [{"year": y, "edits": [[line, "text"]..]}] applied to the cache files before the run
+pub fn histf(case: &JsonValue) -> JsonValue {
+    let truth = truth_of(case);
+    let ckind = case["cache"].as_str().unwrap_or("mem").to_string();
+    let dir = if ckind == "csv" { Some(scratch_dir()) } else { None };
+    let kind = match &dir {
+        Some(d) => CacheKind::Csv(d.clone()),
+        None => CacheKind::Mem(acb::util::rc::RcRefCellT::new(HashMap::new())),
+    };
+    let mut runs = JsonValue::new_array();
+    for run in case["runs"].members() {
+        let mut o = JsonValue::new_object();
+        if let Some(d) = &dir {
+            let mut dm = JsonValue::new_array();
+            for e in run["damage"].members() {
+                let y = e["year"].as_i64().unwrap();
+                let mut r = damage_file(d, y, &e["edits"]);
+                if !r.is_null() {
+                    r["year"] = y.into();
+                    dm.push(r).unwrap();
+                }
+            }
+            o["damaged"] = dm;
+        }
+        let today = run["today"].as_i64().unwrap();
+        acb::util::date::set_todays_date_for_test(date_of(today));
+        let log: ReqLog = Rc::new(RefCell::new(Vec::new()));
+        let req = ScriptedRequester {
+            inner: ServingRequester { truth: truth.clone(), avail: run["avail"].as_i64().unwrap(), log: log.clone() },
+            rq: run["rq"].members().map(|x| x.as_i64().unwrap_or(0)).collect(),
+            n: RefCell::new(0),
+        };
+        let nrd = Rc::new(RefCell::new(0usize));
+        let nwr = Rc::new(RefCell::new(0usize));
+        let cache = ScriptedCache {
+            inner: kind.make(),
+            rd: rd_script(&run["rd"]),
+            wr: run["wr"].members().map(|x| x.as_i64().unwrap_or(0) != 0).collect(),
+            nrd: nrd.clone(),
+            nwr: nwr.clone(),
+        };
+        let mut loader = RateLoader::new(
+            run["force"].as_bool().unwrap(),
+            Box::new(cache),
+            JsonRemoteRateLoader::new_boxed(Box::new(req)),
+            WriteHandle::empty_write_handle(),
+        );
+        let mut answers = JsonValue::new_array();
+        let mut marks = JsonValue::new_array();
+        for d in run["lookups"].members() {
+            let r = loader.blocking_get_effective_usd_cad_rate(date_of(d.as_i64().unwrap()));
+            answers.push(answer_json(r)).unwrap();
+            marks.push(log.borrow().len()).unwrap();
+        }
+        o["answers"] = answers;
+        o["requests"] = requests_json(&log);
+        o["req_marks"] = marks;
+        o["nrd"] = (*nrd.borrow()).into();
+        o["nwr"] = (*nwr.borrow()).into();
+        o["cache_after"] = dump_cache(&kind, &case["years"]);
+        runs.push(o).unwrap();
+    }
+    let mut out = JsonValue::new_object();
+    out["status"] = "ok".into();
+    out["runs"] = runs;
+    out["cache"] = dump_cache(&kind, &case["years"]);
+    if let Some(d) = dir {
+        let _ = std::fs::remove_dir_all(d);
+    }
+    out
+}
+
+// ================================================================ the remote document layer
+struct TextRequester {
+    body: String,
+}
+
+#[async_trait::async_trait(?Send)]
+impl HttpRequester for TextRequester {
+    async fn get(&self, _url: &str) -> Result<String, SError> {
+        Ok(self.body.clone())
+    }
+}
+
+/// {"text": "<document>", "year": y}: the real parse_rates_json through JsonRemoteRateLoader
+pub fn doc(case: &JsonValue) -> JsonValue {
+    use acb::fx::io::RemoteRateLoader;
+    let loader = JsonRemoteRateLoader::new(Box::new(TextRequester { body: case["text"].as_str().unwrap().to_string() }));
+    let r = block_on(loader.get_remote_usd_cad_rates(case["year"].as_u32().unwrap_or(2022)));
+    let mut out = JsonValue::new_object();
+    out["status"] = "ok".into();
+    match r {
+        Ok(res) => {
+            out["rates"] = rates_json(&res.rates);
+            out["nfe"] = res.non_fatal_errors.len().into();
+        }
+        Err(e) => {
+            out["err"] = e.into();
+        }
+    }
+    out
+}
+
+/// {"text": "<number token>"}: how the json crate holds the number, its Display, and Decimal::from_str of that
+pub fn jsonnum(case: &JsonValue) -> JsonValue {
+    use std::str::FromStr;
+    let mut out = JsonValue::new_object();
+    out["status"] = "ok".into();
+    match json::parse(case["text"].as_str().unwrap()) {
+        Ok(JsonValue::Number(n)) => {
+            let (pos, m, e) = n.as_parts();
+            out["parts"] = JsonValue::Array(vec![pos.into(), m.to_string().into(), (e as i64).into()]);
+            let s = n.to_string();
+            out["dec"] = match Decimal::from_str(&s) {
+                Ok(d) => JsonValue::String(d.to_string()),
+                Err(_) => JsonValue::Null,
+            };
+            out["display"] = s.into();
+        }
+        Ok(_) => {
+            out["other"] = true.into();
+        }
+        Err(e) => {
+            out["err"] = e.to_string().into();
+        }
+    }
+    out
+}
